@@ -104,6 +104,27 @@ fn run_prog(id: &str, lines: &[String], out: &mut String) {
                     "depth" => {
                         writeln!(out, "{} {} depth {}", id, qid, bdd.max_depth(reg(w[2], &regs))).unwrap();
                     }
+                    "reimport" => {
+                        // the store is exported and re-imported in place (serde + fix_import, or the plain node list);
+                        // the registers keep their meaning because the numbering is preserved
+                        let before = table_string(&bdd);
+                        if w[2] == "live" {
+                            // the repair step applied to the live store (no export / import)
+                            bdd.fix_import();
+                            writeln!(out, "{} {} reimport live nodes_equal={}", id, qid, (before == table_string(&bdd)) as u8).unwrap();
+                            continue;
+                        }
+                        let b2: Bdd = if w[2] == "json" {
+                            let s = serde_json::to_string(&bdd).unwrap();
+                            let mut b: Bdd = serde_json::from_str(&s).unwrap();
+                            b.fix_import();
+                            b
+                        } else {
+                            Bdd::from(bdd.nodes.clone())
+                        };
+                        writeln!(out, "{} {} reimport {} nodes_equal={}", id, qid, w[2], (before == table_string(&b2)) as u8).unwrap();
+                        bdd = b2;
+                    }
                     "deps" => {
                         let mut d: Vec<usize> = bdd
                             .var_dependencies(reg(w[2], &regs))
